@@ -165,6 +165,16 @@ def canon_val(v) -> str:
     return "O:" + repr(v)
 
 
+def canon_kind(kind, v) -> str:
+    if kind == "events":
+        return "E:[" + ",".join(x.value for x in v) + "]"
+    if kind == "csvint":
+        return "L:" + show_ints(v)
+    if kind == "codes":
+        return "C:" + show_ints(sorted(v))
+    return canon_val(v)
+
+
 def canon_model_val(t: str) -> str:
     """bring a driver value string to the same canonical form (sort sets)"""
     if t.startswith("C:["):
@@ -754,8 +764,8 @@ def check_parser_strings(ctx, kind, strings, origin="gen"):
         if kind == "timeout":
             if not time_close(v, model_time(mval)):
                 raise RuntimeError(f"stale model: timeout parse({s!r}) = {v!r}, model {mval}")
-        elif canon_model_val(mval) != canon_val(v):
-            raise RuntimeError(f"stale model: {kind} parse({s!r}) = {canon_val(v)}, model {canon_model_val(mval)}")
+        elif canon_model_val(mval) != canon_kind(kind, v):
+            raise RuntimeError(f"stale model: {kind} parse({s!r}) = {canon_kind(kind, v)}, model {canon_model_val(mval)}")
         ctx.case((kind, s))
         # ---- round trip on the real code
         if kind == "timeout":
